@@ -6,8 +6,10 @@ for wt in /tmp/wt/C??; do
   [ -f $wt/deliver/meta.json ] || continue
   for w in a b; do
     [ -f $wt/deliver/mutant_$w.diff ] || continue
-    [ -d seeded/${p}_$w ] && continue
-    tools/seedcheck.py import $wt $p $w | tail -1 | cut -c1-200
+    d=$w
+    if [ -d $wt/deliver_round1 ]; then if [ $w = a ]; then d=c; else d=d; fi; fi
+    [ -d seeded/${p}_$d ] && continue
+    tools/seedcheck.py import $wt $p $w $d | tail -1 | cut -c1-200
   done
 done
 for d in seeded/*/; do
